@@ -66,6 +66,22 @@ func JSONGetInt(val *fastjson.Value, prop string) int64 {
 	return i
 }
 
+// JSONGetUint reads a non-negative count; a negative or fractional number is no count
+func JSONGetUint(val *fastjson.Value, prop string) uint {
+	if !val.Exists(prop) {
+		return 0
+	}
+	v := val.Get(prop)
+	if v.Type() != fastjson.TypeNumber {
+		return 0
+	}
+	if u, err := strconv.ParseUint(v.String(), 10, 64); err == nil {
+		return uint(u)
+	}
+	// counts written by earlier versions of this package wrapped around above the largest signed number
+	return uint(v.GetInt64())
+}
+
 func JSONGetFloat(val *fastjson.Value, prop string) float64 {
 	if !val.Exists(prop) {
 		return 0.0
@@ -580,7 +596,7 @@ func JSONLoadCollection(val *fastjson.Value, c *Collection) error {
 	c.Current = JSONGetItem(val, "current")
 	c.First = JSONGetItem(val, "first")
 	c.Last = JSONGetItem(val, "last")
-	c.TotalItems = uint(JSONGetInt(val, "totalItems"))
+	c.TotalItems = JSONGetUint(val, "totalItems")
 	c.Items = JSONGetItems(val, "items")
 	return OnObject(c, func(o *Object) error {
 		return JSONLoadObject(val, o)
@@ -600,7 +616,7 @@ func JSONLoadOrderedCollection(val *fastjson.Value, c *OrderedCollection) error 
 	c.Current = JSONGetItem(val, "current")
 	c.First = JSONGetItem(val, "first")
 	c.Last = JSONGetItem(val, "last")
-	c.TotalItems = uint(JSONGetInt(val, "totalItems"))
+	c.TotalItems = JSONGetUint(val, "totalItems")
 	c.OrderedItems = JSONGetItems(val, "orderedItems")
 	return OnObject(c, func(o *Object) error {
 		return JSONLoadObject(val, o)
@@ -611,7 +627,7 @@ func JSONLoadOrderedCollectionPage(val *fastjson.Value, c *OrderedCollectionPage
 	c.Next = JSONGetItem(val, "next")
 	c.Prev = JSONGetItem(val, "prev")
 	c.PartOf = JSONGetItem(val, "partOf")
-	c.StartIndex = uint(JSONGetInt(val, "startIndex"))
+	c.StartIndex = JSONGetUint(val, "startIndex")
 	return OnOrderedCollection(c, func(c *OrderedCollection) error {
 		return JSONLoadOrderedCollection(val, c)
 	})
@@ -658,11 +674,11 @@ func JSONLoadLink(val *fastjson.Value, l *Link) error {
 	l.Type = JSONGetType(val)
 	l.MediaType = JSONGetMimeType(val, "mediaType")
 	l.Preview = JSONGetItem(val, "preview")
-	if h := JSONGetInt(val, "height"); h != 0 {
-		l.Height = uint(h)
+	if h := JSONGetUint(val, "height"); h != 0 {
+		l.Height = h
 	}
-	if w := JSONGetInt(val, "width"); w != 0 {
-		l.Width = uint(w)
+	if w := JSONGetUint(val, "width"); w != 0 {
+		l.Width = w
 	}
 	l.Name = JSONGetNaturalLanguageField(val, "name")
 	// the vocabulary's term is all lower case; the camel case spelling this package used to write is still read
